@@ -7,8 +7,10 @@ Differential driver for the record framing model (`drv frame`).
 case <id> lim=<n>
 recs <rid>:<enc>:<payload>;...     records given to the real write_record (hex fields, `-` = empty)
 wire <hex>                         bytes the real write_record produced      (checked = encodeStream recs)
-feed <hex>                         bytes fed to the real StreamReader
+feed <hex> | feed =                bytes fed to the real StreamReader (`=`: exactly the wire bytes, which the
+                                   `wire` line has already shown to equal encodeStream recs)
 got <end> <rid>:<enc>:<payload>;...  what the real read_record loop returned   (checked = decodeStream lim feed)
+got <end> =                        … it returned exactly `recs`
 end                                → `ok <id> …` or `MISMATCH <id> …`
 ```
 -/
@@ -68,6 +70,7 @@ structure St where
   errs : List String := []
   checks : Nat := 0
   live : Bool := false
+  feedIsWire : Bool := false
 
 /-- abbreviate long hex strings in messages -/
 def brief (s : String) : String := if s.length > 160 then (s.take 160).toString ++ s!"…({s.length})" else s
@@ -91,10 +94,16 @@ partial def loop (h : IO.FS.Stream) (st : St) : IO Unit := do
       if m == bs then loop h { st with checks := st.checks + 1 }
       else loop h { st with errs := s!"write_record bytes differ: model={brief (hex m)} impl={brief (hex bs)}" :: st.errs }
     | none => loop h { st with errs := "unparsable wire line" :: st.errs }
+  | ["feed", "="] => loop h { st with feed := encodeStream st.recs, feedIsWire := true }
   | ["feed", s] =>
     match unhex s with
     | some bs => loop h { st with feed := bs }
     | none => loop h { st with errs := "unparsable feed line" :: st.errs }
+  | ["got", e, "="] =>
+    -- the implementation read back exactly the records it wrote (compared structurally)
+    let (rs, en) := decodeStream st.lim st.feed
+    if rs == st.recs && showEnd en == e then loop h { st with checks := st.checks + 1 }
+    else loop h { st with errs := s!"read_record results differ: model={brief (showEnd en ++ " " ++ showRecs rs)} impl={e} (the records written)" :: st.errs }
   | ["got", e, s] =>
     let (rs, en) := decodeStream st.lim st.feed
     let mine := s!"{showEnd en} {showRecs rs}"
